@@ -38,6 +38,9 @@ pub fn profile_for(prop: &str, _tier: &str) -> Profile {
             p.faulted = true;
             p.steps = (60, 160);
         }
+        "C10" => {
+            p.alias_pct = 80;
+        }
         "C14" => {
             p.w_ops = [20, 8, 5, 6, 8, 6, 3, 8, 30, 1, 0];
             p.w_macro = [0, 2, 1, 0, 0, 8, 0, 0, 0, 0, 0];
